@@ -103,7 +103,7 @@ def flatten(decls):
 
 OPS = {"add": "+", "sub": "-", "mul": "*", "div": "/", "mod": "%", "lt": "<", "le": "<=", "gt": ">",
        "ge": ">=", "eq": "==", "ne": "!=", "and": "&&", "or": "||"}
-ATOMS = {"int", "float", "bool", "str", "unit", "var", "call", "ctor", "list"}
+ATOMS = {"int", "float", "bool", "str", "unit", "ip", "var", "call", "ctor", "list"}
 
 
 def ty_src(t):
@@ -143,6 +143,8 @@ class Printer:
     def expr(self, i):
         n = self.node(i)
         k = n["k"]
+        if k == "ip":
+            return ["::1", "1.2.3.4", "2001:db8::2"][n["v"] % 3]
         if k == "int":
             return "%d%s" % (n["v"], n["suf"])
         if k == "float":
@@ -931,7 +933,7 @@ FAMILIES = ["operand-bool", "operand-str", "logic-int", "cond-nonbool", "arg-cou
             "name-undeclared", "name-out-of-scope", "match-drop-arm", "match-after-default",
             "match-dup-arm", "neg-unsigned", "exit-forbidden", "assign-non-local", "redeclare",
             "recursive-type", "recursive-const", "elem-type", "return-type", "let-type", "assign-type",
-            "fallthrough-after-loop", "fallthrough-after-shortcircuit", "match-rename-arm", "name-sibling-scope", "recursive-member"]
+            "fallthrough-after-loop", "fallthrough-after-shortcircuit", "cassign-result-type", "match-rename-arm", "name-sibling-scope", "recursive-member"]
 # the rule list of the property statement; every rule must be hit by a family that produced mutants
 RULES = ["operand type / arithmetic or ordering on non-numbers", "operand type", "condition type",
          "wrong argument count", "argument type", "missing, duplicate or unknown record field", "field type",
